@@ -606,7 +606,7 @@ result_t World::onRead(unsigned int timeout) {
       return RESULT_ERR_TIMEOUT;
     }
     // ---- menu ----
-    enum A { DEFAULT, REPLACE, DROP, INSERT, SILENCE, LONGSILENCE, CHUNK, SPLIT, CHUNKHALF, LOSE_QUIET, LOSE_TEL, ECHO_LOST, ECHO_LATE, READERR, ENQ };
+    enum A { DEFAULT, REPLACE, DROP, INSERT, SILENCE, LONGSILENCE, CHUNK, SPLIT, CHUNKHALF, LOSE_QUIET, LOSE_TEL, ECHO_LOST, ECHO_LATE, READERR, ENQ, STALE_ARB };
     struct Alt { A a; int arg; uint8_t kind; };
     static thread_local std::vector<Alt> alts;
     alts.clear();
@@ -642,6 +642,10 @@ result_t World::onRead(unsigned int timeout) {
     } else {  // D_SILENCE
       if (sc.insertDrop) for (uint8_t x : sc.alphabet) alts.push_back(Alt{INSERT, x, K_DEV});
       if (sc.longSilence) alts.push_back(Alt{LONGSILENCE, 0, K_DEV});
+    }
+    if (sc.enhanced && sc.staleArb && d.k != D_ECHO) {
+      alts.push_back(Alt{STALE_ARB, 1, K_DEV});  // STARTED <own address> nobody asked for (any more)
+      alts.push_back(Alt{STALE_ARB, 2, K_DEV});  // FAILED <own address>
     }
     if (sc.faults) alts.push_back(Alt{READERR, 0, K_DEV});
     for (size_t i = 0; i < sc.reqs.size(); i++) if (sc.reqs[i].late && reqState[i] == 0) alts.push_back(Alt{ENQ, (int)i, K_REQ});
@@ -734,6 +738,10 @@ result_t World::onRead(unsigned int timeout) {
         if (d.k == D_ECHO) { if (sc.unbounded && gapLeft > 0) gapLeft--; echoDelivered(d.v, (uint8_t)ch.arg); return RESULT_OK; }
         if (sc.unbounded && active != nullptr && !exchange && gapLeft > 0) gapLeft--;  // inside a scripted foreign telegram (in a gap takeByte() counts; a responder's symbols stay free)
         takeByte(); deliverSym((uint8_t)ch.arg, 0); return RESULT_OK;
+      case STALE_ARB:
+        if (sc.unbounded && gapLeft > 0) gapLeft--;
+        deliverSym(sc.own, ch.arg);
+        return RESULT_OK;
       case LOSE_QUIET:
         if (sc.unbounded && gapLeft > 0) gapLeft--;
         echoDelivered(d.v, (uint8_t)ch.arg); return RESULT_OK;
